@@ -56,11 +56,11 @@ fn precision(max_stalls: u32) {
     }
 }
 
-// @cell props=C11 tier=thorough kind=attempt timeout=900 mem=24 cls=K
+// @cell props=C11 tier=thorough kind=attempt timeout=1500 mem=24 cls=K unwindre=measure_precision\.\d+$:102
 // @desc Timer::measure_precision on a clock advancing by a symbolic uniform step (1..=2^20 ticks at 10^12 Hz, i.e.
 // @desc ps) per reading: the reported precision equals the step
 #[kani::proof]
-#[kani::unwind(103)]
+#[kani::unwind(3)]
 #[kani::stub(crate::time::timestamp::tsc::TscTimestamp::start, ts_start)]
 #[kani::stub(crate::time::timestamp::tsc::TscTimestamp::end, ts_end)]
 #[kani::stub(crate::time::timestamp::tsc::TscTimestamp::duration_since, dur_stub)]
@@ -70,11 +70,11 @@ fn c11_precision_uniform_step() {
     precision(0)
 }
 
-// @cell props=C11 tier=thorough kind=attempt timeout=900 mem=24 cls=K
+// @cell props=C11 tier=thorough kind=attempt timeout=1500 mem=24 cls=K unwindre=measure_precision\.\d+$:102
 // @desc the same with a possibly zero-length first sample (second reading equal to the first): zero samples are
 // @desc discarded, the precision is still the step
 #[kani::proof]
-#[kani::unwind(103)]
+#[kani::unwind(3)]
 #[kani::stub(crate::time::timestamp::tsc::TscTimestamp::start, ts_start)]
 #[kani::stub(crate::time::timestamp::tsc::TscTimestamp::end, ts_end)]
 #[kani::stub(crate::time::timestamp::tsc::TscTimestamp::duration_since, dur_stub)]
